@@ -1,8 +1,10 @@
 """C05 - String literals decode exactly per RFC 8259 escapes, wherever they sit."""
 ID = "C05"
-LEVEL = "other"   # raised to "proof" by tools/make_manifest when C05_decode (full) is present - see LEVEL_TEXT
-LEAN_MODULES = ["Sonic.Props.C05"]
-REQUIRED_THEOREMS = ["Sonic.Props.C05." + n for n in ["C05_escmap", "C05_hex4", "C05_utf8", "C05_surrogates"]]
+LEVEL = "proof"
+from lib.core import existing_modules
+LEAN_MODULES = existing_modules(["Sonic.Props.C05"]) + ["Sonic.Spec.Json"]
+REQUIRED_THEOREMS = ["Sonic.Props.C05." + n for n in ["C05_escmap", "C05_hex4", "C05_utf8", "C05_surrogates", "C05_block_idioms",
+                                                         "C05_decode_at", "C05_decode", "C05_width_independent", "C05_prefix_preserved"]]
 CONFIGS = [("avx2", "prod"), ("sse", "prod"), ("avx2", "san"), ("sse", "san")]
 CONFIGS_THOROUGH = CONFIGS + [("dyn", "prod")]
 RULE = ("string literals (bytes after the opening quote): each of the 8 simple escapes, \\u of every UTF-8 length class, valid surrogate "
@@ -12,13 +14,14 @@ RULE = ("string literals (bytes after the opening quote): each of the 8 simple e
         "and lower case hex; pairs (hi,lo) over boundary and random sets; padding bytes 0x00/0x22/0x5c/0xaa.  distinct = distinct "
         "command line; non-trivial = contains an escape, a control byte or is longer than one vector")
 EXPLANATION = ("Theorems tie the generated escape/hex tables to RFC 8259 (C05_escmap, C05_hex4), prove UTF-8 encoding and surrogate "
-               "pairing of the model for all 16-bit units (C05_utf8, C05_surrogates) and - when present - C05_decode: for every vector "
-               "width, literal and padding the block-wise in-place decoder equals the byte-at-a-time Spec.decodeLit. The run compares the "
+               "pairing of the model for all 16-bit units (C05_utf8, C05_surrogates) and C05_decode_at: for every vector width 0<W<=63, "
+               "every literal at every buffer position and every padding the block-wise in-place decoder never faults, terminates and equals "
+               "the byte-at-a-time Spec.decodeLit (C05_width_independent is the corollary). The run compares the "
                "compiled parseStringInplace with Spec.decodeLit (accept/reject, bytes, end index) and with the model (error code, whole buffer).")
 ASSUMPTIONS = ["SIMD compare/movemask/load/store have their per-byte meaning", "the buffer really has 64 readable bytes after the input (C16/C02)"]
 TRUSTED = ["per-byte meaning of the SSE/AVX2 primitives used by StringBlock"]
-LEVEL_TEXT = ("Lean 4 theorems about the decoder's tables, UTF-8/surrogate arithmetic and (when C05_decode is listed in the evidence) the "
-              "full block-wise decoder for every vector width; differential correspondence of the compiled decoder against the byte-at-a-time "
+LEVEL_TEXT = ("Machine-checked proof (Lean 4): the decoder's tables, UTF-8/surrogate arithmetic, the mask idioms and the full block-wise "
+              "in-place decoder for every vector width, literal, position and padding equal the byte-at-a-time RFC 8259 spec; differential correspondence of the compiled decoder against the byte-at-a-time "
               "spec and the model in avx2/sse production and sanitizer builds.")
 LEVEL_NOTE = "Trusted: Lean kernel; standard axioms; table translator; per-byte meaning of SIMD primitives (validated by the run)."
 TECHNIQUE = "Lean 4 theorems over a literal model + generated tables; differential correspondence against a byte-at-a-time spec"
